@@ -46,8 +46,14 @@ class _Validation:
         Return the result if the value is accepted.
         Raise a ValueError if not.
         """
-        if self._allowed is not None and value not in self._allowed:
-            raise ValueError(f"Validation error: {value!r} is not among allowed values")
+        if self._allowed is not None:
+            try:
+                is_allowed = value in self._allowed
+            except TypeError:
+                # an unhashable value cannot be a member of the set of allowed values
+                is_allowed = False
+            if not is_allowed:
+                raise ValueError(f"Validation error: {value!r} is not among allowed values")
         if self._check is not None and not self._check(value):
             raise ValueError(f"Validation function rejected value {value!r}")
         if self._schema is not None:
